@@ -380,3 +380,75 @@ Proof.
   destruct (edge_semantics_proof cfg procs fiber upto tb fuel pre t k rising ra ra2 rb _ E) as (Rg & _).
   split; [exact Rg|]. rewrite (after_app_noreeval mid _ Nr). reflexivity.
 Qed.
+
+(* ------------------------------------------------------------------------- *)
+(** * The statements of Properties_C19.v, assembled *)
+
+Lemma before_sees_old_and_is_captured_proof : forall cfg procs fiber until tb fuel,
+  (forall pre t mt ro pid a old,
+     s_log (run cfg procs fiber until tb fuel) = pre ++ LProc t BEFORE mt ro pid a :: old -> ~ edge_at t old) /\
+  (forall pre t k rising ra ra2 rb mid tw mtw ro pid p v old,
+     s_log (run cfg procs fiber until tb fuel) =
+       pre ++ LEdge t k rising ra ra2 rb :: mid ++ LProc tw BEFORE mtw ro pid (AWrite p v) :: old ->
+     In LReeval mid) /\
+  (forall pre t k ra ra2 rb mid tw mtw ro pid p v old,
+     s_log (run cfg procs fiber until tb fuel) =
+       pre ++ LEdge t k true ra ra2 rb :: mid ++ LProc tw BEFORE mtw ro pid (AWrite p v) :: old ->
+     (forall t' ph' mt' ro' pid' v', ~ In (LProc t' ph' mt' ro' pid' (AWrite p v')) mid) ->
+     match p, k with
+     | PA, CA => ra = Some v
+     | PB, CB => c_two cfg = true -> rb = Some v
+     | PB, CA => c_two cfg = false -> rb = Some v
+     | PA, CB => True
+     end).
+Proof.
+  intros cfg procs fiber upto tb fuel. split; [|split].
+  - intros pre t mt ro pid a old E. eapply before_during_precede_edges_proof; [exact E | discriminate].
+  - intros pre t k rising ra ra2 rb mid tw mtw ro pid p v old E.
+    eapply write_outside_during_evaluated_proof; [exact E | discriminate].
+  - apply before_write_captured_proof.
+Qed.
+
+Lemma during_sees_old_not_captured_proof : forall cfg procs fiber until tb fuel,
+  (forall pre t mt ro pid a old,
+     s_log (run cfg procs fiber until tb fuel) = pre ++ LProc t DURING mt ro pid a :: old -> ~ edge_at t old) /\
+  (forall pre t k rising ra ra2 rb mid tw mtw ro pid p v old,
+     s_log (run cfg procs fiber until tb fuel) =
+       pre ++ LEdge t k rising ra ra2 rb :: mid ++ LProc tw DURING mtw ro pid (AWrite p v) :: old ->
+     (tw == t)%Q ->
+     ~ In LReeval mid /\
+     (ra, ra2, rb) = edge_regs (c_two cfg) k rising (mid ++ LProc tw DURING mtw ro pid (AWrite p v) :: old) /\
+     after_reeval (mid ++ LProc tw DURING mtw ro pid (AWrite p v) :: old) = after_reeval old).
+Proof.
+  intros cfg procs fiber upto tb fuel. split.
+  - intros pre t mt ro pid a old E. eapply before_during_precede_edges_proof; [exact E | discriminate].
+  - intros pre t k rising ra ra2 rb mid tw mtw ro pid p v old E Eq. split.
+    + eapply during_write_not_evaluated_proof; eassumption.
+    + eapply during_write_not_captured_proof; eassumption.
+Qed.
+
+Lemma event_order_strict_weak_proof :
+  (forall a b, ev_less b a = true <-> klt a b) /\
+  (forall a, ~ klt a a) /\ (forall a b c, klt a b -> klt b c -> klt a c) /\
+  (forall a b c, incomparable a b -> incomparable b c -> incomparable a c).
+Proof. exact (conj ev_less_klt (conj klt_irrefl (conj klt_trans incomparable_trans))). Qed.
+
+Lemma event_order_total_on_resumptions_proof : forall a b,
+  e_type a = SimProcResume -> e_type b = SimProcResume -> e_id a <> e_id b ->
+  (klt a b \/ klt b a) /\ (stamp_eq a b -> (klt a b <-> (e_id a < e_id b)%N)).
+Proof. intros a b Ra Rb Hne. split; [apply klt_total_resume; assumption | apply klt_same_instant_resume; assumption]. Qed.
+
+Lemma same_instant_fifo_all_proof : forall cfg procs fiber tb s stk,
+  treach cfg (boot cfg procs fiber tb, []) (s, stk) ->
+  qsorted (s_queue s) /\
+  (forall l1 a l2 b l3, s_queue s = l1 ++ a :: l2 ++ b :: l3 ->
+     e_type a = SimProcResume -> e_type b = SimProcResume -> stamp_eq a b -> (e_id a < e_id b)%N) /\
+  (forall e s1, pop_event s = Some (e, s1) ->
+     (forall x, In x (s_queue s1) -> ~ klt x e) /\
+     (exists q, s_queue s = e :: q \/ exists e2 r, s_queue s = e2 :: e :: r /\ incomparable e2 e
+                                      /\ e_type e2 = ClockPinTrigger /\ e_type e = ClockPinTrigger)).
+Proof.
+  intros cfg procs fiber tb s stk R. split; [exact (reach_sorted cfg procs fiber tb (s, stk) R)|]. split.
+  - exact (same_instant_fifo_proof cfg procs fiber tb s stk R).
+  - intros e s1 P. exact (pop_serves_first_proof cfg procs fiber tb s stk e s1 R P).
+Qed.
